@@ -131,19 +131,19 @@ fn defects() -> Vec<Defect> {
                         _ => false,
                     }
                 }
-                q.filter.as_ref().is_some_and(has_conn)
+                q.filter.as_ref().is_some_and(has_conn) || q.opt.as_ref().is_some_and(|o| o.filter.as_ref().is_some_and(has_conn))
             },
             set: |m| m.strict_connectives = true,
         },
         Defect {
             name: "multilabel-first-only",
-            applies: |q, _, _| q.chains.iter().any(|c| c.node_pats().iter().any(|n| n.labels.len() > 1)),
+            applies: |q, _, _| q.all_chains().any(|c| c.node_pats().iter().any(|n| n.labels.len() > 1)),
             set: |m| m.first_label_only = true,
         },
         Defect {
             name: "undirected-selfloop-twice",
             applies: |q, g, _| {
-                q.chains.iter().any(|c| c.steps.iter().any(|(e, _)| e.dir == Dir::Both))
+                q.all_chains().any(|c| c.steps.iter().any(|(e, _)| e.dir == Dir::Both))
                     && (0..g.n_edges()).any(|e| {
                         let (s, d) = g.ends(e);
                         s == d
@@ -162,7 +162,7 @@ fn defects() -> Vec<Defect> {
             name: "edge-props-lost-after-join",
             applies: |q, _, _| {
                 (q.chains.len() > 1 && q.chains[0].steps.iter().any(|(e, _)| e.var.is_some()))
-                    || ((q.with.is_some() || !q.order.is_empty()) && !q.edge_vars().is_empty())
+                    || ((q.with.is_some() || !q.order.is_empty() || q.opt.is_some()) && !q.edge_vars().is_empty())
             },
             set: |m| m.edge_props_lost = true,
         },
@@ -172,6 +172,14 @@ fn defects() -> Vec<Defect> {
             set: |m| {
                 m.edge_props_lost = true;
                 m.edge_props_lost_return_only = true;
+            },
+        },
+        Defect {
+            name: "edge-props-lost-after-join",
+            applies: |q, _, _| q.with.is_some() && !q.order.is_empty() && !q.edge_vars().is_empty(),
+            set: |m| {
+                m.edge_props_lost = true;
+                m.edge_types_kept = true;
             },
         },
         Defect {
@@ -190,8 +198,13 @@ fn defects() -> Vec<Defect> {
             set: |m| m.null_alias_cmp_two_valued = true,
         },
         Defect {
+            name: "optional-where-filters-rows",
+            applies: |q, _, _| q.opt.as_ref().is_some_and(|o| o.filter.is_some()),
+            set: |m| m.optional_where_global = true,
+        },
+        Defect {
             name: "step-inline-props-ignored",
-            applies: |q, _, _| q.chains.iter().any(|c| c.steps.iter().any(|(e, n)| !e.props.is_empty() || !n.props.is_empty())),
+            applies: |q, _, _| q.all_chains().any(|c| c.steps.iter().any(|(e, n)| !e.props.is_empty() || !n.props.is_empty())),
             set: |m| m.ignore_step_props = true,
         },
     ]
@@ -225,8 +238,8 @@ fn classify(g: &GraphSpec, q: &Query, lang: Lang, got: &[Vec<Val>], why: &str) -
     let ds = defects();
     let applicable: Vec<&Defect> = ds.iter().filter(|d| (d.applies)(q, g, &trace)).collect();
     let n = applicable.len();
-    // subsets by increasing size (at most 4 simultaneous defects)
-    let mut subsets: Vec<u32> = (1u32..(1 << n)).filter(|m| m.count_ones() <= 4).collect();
+    // subsets by increasing size (at most 6 simultaneous defects: Cypher alone has that many open ones that can meet in one OPTIONAL MATCH query)
+    let mut subsets: Vec<u32> = (1u32..(1 << n)).filter(|m| m.count_ones() <= 6).collect();
     subsets.sort_by_key(|m| (m.count_ones(), *m));
     for mask in subsets {
         let mut mode = Mode::default();
@@ -281,6 +294,8 @@ fn case_strategy(max_nodes: usize, max_edges: usize, cfg: QueryCfg) -> impl Stra
 #[derive(Default)]
 struct Matrix {
     cases: u64,
+    /// feature → cases that have it
+    feat_cases: BTreeMap<&'static str, u64>,
     rendered: BTreeMap<&'static str, u64>,
     cell: BTreeMap<(&'static str, &'static str), (u64, u64)>,
     err_samples: BTreeMap<(&'static str, String), String>,
@@ -300,8 +315,8 @@ fn nontrivial(q: &Query, rows: usize) -> bool {
 fn too_large(g: &GraphSpec, q: &Query) -> bool {
     let (n, m) = (g.n_nodes().max(1) as f64, (g.n_edges().max(1) * 2) as f64);
     let mut bound = 1f64;
-    for (i, c) in q.chains.iter().enumerate() {
-        let shared = i > 0 && q.chains[0].node_pats().iter().any(|p| p.var == c.start.var);
+    for (i, c) in q.chains.iter().chain(q.opt.iter().map(|o| &o.chain)).enumerate() {
+        let shared = i > 0 && q.chains[..i.min(q.chains.len())].iter().any(|c0| c0.node_pats().iter().any(|p| p.var == c.start.var));
         bound *= if shared { n.min(4.0) } else { n };
         for (e, _) in &c.steps {
             let hops = e.hops.map_or(1, |(_, hi)| i32::from(hi));
@@ -389,6 +404,9 @@ fn check_case(case: &Case, langs: &[Lang], matrix: &Mutex<Matrix>) -> CaseResult
     {
         let mut m = matrix.lock().unwrap();
         m.cases += 1;
+        for f in feats.iter().chain(std::iter::once(&"any")) {
+            *m.feat_cases.entry(f).or_insert(0) += 1;
+        }
         for (lang, o) in &outcomes {
             if let Some(okk) = o {
                 *m.rendered.entry(lang.name()).or_insert(0) += 1;
@@ -418,6 +436,13 @@ fn check_case(case: &Case, langs: &[Lang], matrix: &Mutex<Matrix>) -> CaseResult
 
 fn report_matrix(r: &Run, sub: &str, matrix: &Mutex<Matrix>) {
     let m = matrix.lock().unwrap();
+    // notes go to the evidence file; under C08_SURVEY (development aid) they are echoed as well
+    let note = |s: String| {
+        if std::env::var("C08_SURVEY").is_ok() {
+            eprintln!("NOTE {s}");
+        }
+        r.note(s);
+    };
     if m.cases == 0 {
         return;
     }
@@ -426,7 +451,19 @@ fn report_matrix(r: &Run, sub: &str, matrix: &Mutex<Matrix>) {
         let n = m.rendered.get(l.name()).copied().unwrap_or(0);
         expr.push(format!("{} {:.0}%", l.name(), 100.0 * n as f64 / m.cases as f64));
     }
-    r.note(format!("{sub}: expressible share of generated ASTs: {}", expr.join(", ")));
+    note(format!("{sub}: expressible share of generated ASTs{}: {}", if sub == "crosslang" { " (languages that returned rows)" } else { "" }, expr.join(", ")));
+    if !m.feat_cases.is_empty() {
+        // per feature: share of the cases with that feature which each language renders
+        let mut rows = Vec::new();
+        for (feat, n) in &m.feat_cases {
+            let per: Vec<String> = LANGS
+                .iter()
+                .map(|l| format!("{:.0}", 100.0 * m.cell.get(&(l.name(), *feat)).map_or(0, |c| c.0) as f64 / *n as f64))
+                .collect();
+            rows.push(format!("{feat}[{n}] {}", per.join("/")));
+        }
+        note(format!("{sub}: expressibility per feature, feature[cases] gql/cypher/gremlin/graphql % rendered: {}", rows.join(", ")));
+    }
     let mut rates = Vec::new();
     let mut dead = Vec::new();
     for ((lang, feat), (n, e)) in &m.cell {
@@ -437,47 +474,40 @@ fn report_matrix(r: &Run, sub: &str, matrix: &Mutex<Matrix>) {
             dead.push(format!("{lang}/{feat}"));
         }
     }
-    r.note(format!("{sub}: engine Err per (language/feature) [errors/rendered]: {}", rates.join(", ")));
+    note(format!("{sub}: engine Err per (language/feature) [errors/rendered]: {}", rates.join(", ")));
     if !dead.is_empty() {
-        r.note(format!("{sub}: not in the implemented core (every rendered case returns Err): {}", dead.join(", ")));
+        note(format!("{sub}: not in the implemented core (every rendered case returns Err): {}", dead.join(", ")));
     }
     for ((lang, kind), s) in &m.err_samples {
-        r.note(format!("{sub}: sample err {lang}/{kind}: {}", crate::driver::truncate(s, 300)));
+        note(format!("{sub}: sample err {lang}/{kind}: {}", crate::driver::truncate(s, 300)));
     }
 }
 
-/// Cross-language agreement: the same AST rendered in two languages must give the same rows,
-/// judged without the reference (which is only consulted to name the side that is wrong).
-fn check_cross(case: &Case, matrix: &Mutex<Matrix>) -> CaseResult {
-    let g = &case.graph;
-    // use the AST that all renderings denote (Gremlin's projection adds an existence requirement)
-    let q = if render(&case.query, Lang::Gremlin).is_some() { effective_query(&case.query, Lang::Gremlin) } else { case.query.clone() };
-    let q = &q;
-    if too_large(g, q) {
-        return ok(false, "skipped-large", hash_dbg(case));
-    }
-    let db = guard("build_db", || build_db(g))?;
+/// One group of languages asked the same question: `q` is the AST all renderings denote, `orig` the AST the
+/// Gremlin text is rendered from (its projection adds the existence requirement that `q` spells out).
+/// Returns (class letters, languages that answered, largest row count, failures).
+#[allow(clippy::type_complexity)]
+fn cross_group(
+    g: &GraphSpec,
+    db: &grafeo_engine::GrafeoDB,
+    q: &Query,
+    orig: &Query,
+    langs: &[Lang],
+) -> Result<(String, Vec<Lang>, usize, Vec<Failure>), Failure> {
     let mut results: Vec<(Lang, String, Vec<Vec<Val>>)> = Vec::new();
     let mut class = String::new();
-    for lang in LANGS {
-        let text = if lang == Lang::Gremlin { render(&case.query, lang) } else { render(q, lang) };
+    for &lang in langs {
+        let text = if lang == Lang::Gremlin { render(orig, lang) } else { render(q, lang) };
         let Some(text) = text else {
             class.push('-');
             continue;
         };
-        match guard(&format!("{}: {text}", lang.name()), || run_query(&db, lang, &text))? {
+        match guard(&format!("{}: {text}", lang.name()), || run_query(db, lang, &text))? {
             Ok(rows) => {
                 class.push('o');
                 results.push((lang, text, rows.rows));
             }
             Err(_) => class.push('E'),
-        }
-    }
-    {
-        let mut m = matrix.lock().unwrap();
-        m.cases += 1;
-        for (l, _, _) in &results {
-            *m.rendered.entry(l.name()).or_insert(0) += 1;
         }
     }
     let full = Evaluator::new(g, Mode::default()).projected(q);
@@ -512,6 +542,55 @@ fn check_cross(case: &Case, matrix: &Mutex<Matrix>) -> CaseResult {
             failures.push(f);
         }
     }
+    let n_rows = results.iter().map(|(_, _, r)| r.len()).max().unwrap_or(0);
+    Ok((class, results.iter().map(|(l, _, _)| *l).collect(), n_rows, failures))
+}
+
+/// Cross-language agreement: the same AST rendered in two languages must give the same rows,
+/// judged without the reference (which is only consulted to name the side that is wrong).
+fn check_cross(case: &Case, matrix: &Mutex<Matrix>) -> CaseResult {
+    let g = &case.graph;
+    let orig = &case.query;
+    if too_large(g, orig) {
+        return ok(false, "skipped-large", hash_dbg(case));
+    }
+    let db = guard("build_db", || build_db(g))?;
+    // Gremlin's projection adds an existence requirement: the languages that can say it (GQL, Cypher) are
+    // compared with Gremlin on the AST that spells it out; GraphQL cannot, and is compared with GQL and Cypher
+    // on the AST as generated.
+    let q_eff = if render(orig, Lang::Gremlin).is_some() { effective_query(orig, Lang::Gremlin) } else { orig.clone() };
+    let groups: Vec<(&Query, Vec<Lang>)> = if q_eff != *orig {
+        let mut v = vec![(&q_eff, vec![Lang::Gql, Lang::Cypher, Lang::Gremlin])];
+        if render(orig, Lang::GraphQl).is_some() {
+            v.push((orig, vec![Lang::Gql, Lang::Cypher, Lang::GraphQl]));
+        }
+        v
+    } else {
+        vec![(orig, LANGS.to_vec())]
+    };
+    let mut class = String::new();
+    let mut answered: BTreeSet<Lang> = BTreeSet::new();
+    let mut n_rows = 0usize;
+    let mut failures = Vec::new();
+    let mut pairs = 0usize;
+    for (q, langs) in &groups {
+        let (c, ok_langs, rows, f) = cross_group(g, &db, q, orig, langs)?;
+        if !class.is_empty() {
+            class.push('|');
+        }
+        class.push_str(&c);
+        pairs = pairs.max(ok_langs.len());
+        answered.extend(ok_langs);
+        n_rows = n_rows.max(rows);
+        failures.extend(f);
+    }
+    {
+        let mut m = matrix.lock().unwrap();
+        m.cases += 1;
+        for l in &answered {
+            *m.rendered.entry(l.name()).or_insert(0) += 1;
+        }
+    }
     if !failures.is_empty() {
         let open = open_signatures();
         let f = failures.iter().find(|f| !open.contains(&f.signature)).unwrap_or(&failures[0]).clone();
@@ -521,8 +600,7 @@ fn check_cross(case: &Case, matrix: &Mutex<Matrix>) -> CaseResult {
         }
         return Err(f);
     }
-    let n_rows = results.iter().map(|(_, _, r)| r.len()).max().unwrap_or(0);
-    ok(results.len() >= 2 && n_rows > 0, format!("[{class}]"), hash_dbg(case))
+    ok(pairs >= 2 && n_rows > 0, format!("[{class}]"), hash_dbg(case))
 }
 
 pub fn run_prop(r: &mut Run) {
@@ -535,13 +613,23 @@ pub fn run_prop(r: &mut Run) {
               DISTINCT, ORDER BY on returned scalars, SKIP/LIMIT; rendered in every language that can express it and compared \
               with the reference evaluator (multiset; ORDER BY keys as sequence; SKIP/LIMIT by validity predicate). \
               Features with known systematic defects get bounded shares so most cases stay strict: multi-label 4 %, DISTINCT \
-              12 %, OR/NOT trees 30 % of WHEREs, WITH 5 %, second pattern 8 %, variable length 12 %, undirected 15 % of hops. \
+              12 %, OR/NOT trees 30 % of WHEREs, WITH 5 %, second pattern 8 %, variable length 12 %, undirected 15 % of hops, \
+              OPTIONAL MATCH 6 % (sub-check `optional`: every query; the clause is a chain of new variables starting at a node of \
+              the MATCH in 85 %, it carries its own WHERE in 40 % - the share the open finding optional-where-filters-rows can \
+              swallow -, the MATCH's own WHERE is generated in 2 of 7 such queries because GQL cannot place it). \
+              Sub-checks `reference_simple` and `crosslang` draw 80 % of their queries from generators shaped after what the \
+              Gremlin and GraphQL front ends implement (45 % expressible in all four languages: labelled root, typed hops leading \
+              away from it, one returned property of the far end; 30 % GraphQL-shaped: several returned properties in nested \
+              selection order, multi-key orderBy on root properties, first/offset; 25 % Gremlin-shaped: any direction, labels \
+              anywhere, the walk ending on either end node or on the first/last edge, edge predicates (outE..inV), id / label / \
+              count / sum / min / max / mean / fold, dedup, order().by, skip/limit, hasNot / without) and 20 % from the plain \
+              `simple` profile. \
               Non-trivial = at least one language returned rows that were compared, the result is non-empty and the query has \
               >= 2 of {edge pattern, predicate, aggregate/DISTINCT, ORDER/SKIP/LIMIT}; distinct by hash of (graph, query)."
         .into();
     r.assumptions.extend([
         "databases are fresh and in-memory, built through create_node_with_props/create_edge_with_props, never inside an explicit transaction (epoch 0)".to_string(),
-        "conventions read from the engine where the property text is silent: pattern matching is homomorphic (an edge may bind two hops, walks may repeat edges); '='/'<>' across kinds are false/true, '<' etc. across kinds and on booleans are unknown; ORDER BY puts NULL last ascending / first descending; sum of no values is 0, min/max/avg NULL; Int and Float of equal value are the same value in results".to_string(),
+        "conventions read from the engine where the property text is silent: pattern matching is homomorphic (an edge may bind two hops, walks may repeat edges); '='/'<>' across kinds are false/true, '<' etc. across kinds are unknown, booleans order false < true; ORDER BY puts NULL last ascending / first descending; sum of no values is 0, min/max/avg NULL; Int and Float of equal value are the same value in results".to_string(),
         "generator stays inside documented/observed input domains: small integers (no overflow), floats are multiples of 0.5 and stored floats are never integral, '/' and '%' only by non-zero literals (integer division by zero panics: C12), ORDER BY only on keys of one kind, edge property keys disjoint from node property keys (zone-map check on the node column for edge predicates: C10), boolean connectives always parenthesised".to_string(),
         "an engine Err is not compared (C08 is about returned rows); error rates per (language, feature) are in the notes".to_string(),
     ]);
@@ -550,13 +638,19 @@ pub fn run_prop(r: &mut Run) {
     let (mn, me) = if thorough { (40, 60) } else { (12, 20) };
 
     let matrix = Mutex::new(Matrix::default());
-    r.subcheck("reference", r.cases(3_000, 300_000), || case_strategy(mn, me, QueryCfg::default()), |c: &Case| check_case(c, &LANGS, &matrix));
+    r.subcheck("reference", r.cases(4_000, 300_000), || case_strategy(mn, me, QueryCfg { p_optional: 6, ..QueryCfg::default() }), |c: &Case| check_case(c, &LANGS, &matrix));
     report_matrix(r, "reference", &matrix);
 
+    // OPTIONAL MATCH (GQL + Cypher): every query carries the clause
+    let optional = || QueryCfg { p_optional: 100, p_second_chain: 0, p_with: 0, p_varlen: 6, p_multilabel: 1, p_undirected: 6, ..QueryCfg::default() };
+    let matrix_o = Mutex::new(Matrix::default());
+    r.subcheck("optional", r.cases(3_000, 150_000), || case_strategy(mn, me, optional()), |c: &Case| check_case(c, &[Lang::Gql, Lang::Cypher], &matrix_o));
+    report_matrix(r, "optional", &matrix_o);
+
     // the Gremlin/GraphQL-expressible fragment is a small share of the full grammar: aim a generator at it
-    let simple = || QueryCfg { simple_only: true, p_distinct: 10, p_agg: 25, p_order: 25, p_skiplimit: 20, p_varlen: 0, p_multilabel: 3, ..QueryCfg::default() };
+    let simple = || QueryCfg { simple_only: true, p_distinct: 10, p_agg: 25, p_order: 25, p_skiplimit: 20, p_varlen: 0, p_multilabel: 3, p_shaped: 80, ..QueryCfg::default() };
     let matrix2 = Mutex::new(Matrix::default());
-    r.subcheck("reference_simple", r.cases(2_000, 200_000), || case_strategy(mn, me, simple()), |c: &Case| check_case(c, &LANGS, &matrix2));
+    r.subcheck("reference_simple", r.cases(10_000, 300_000), || case_strategy(mn, me, simple()), |c: &Case| check_case(c, &LANGS, &matrix2));
     report_matrix(r, "reference_simple", &matrix2);
 
     let matrix3 = Mutex::new(Matrix::default());
@@ -565,7 +659,7 @@ pub fn run_prop(r: &mut Run) {
         c.p_skiplimit = 0;
         c
     };
-    r.subcheck("crosslang", r.cases(2_000, 200_000), || case_strategy(mn, me, cross()), |c: &Case| check_cross(c, &matrix3));
+    r.subcheck("crosslang", r.cases(6_000, 200_000), || case_strategy(mn, me, cross()), |c: &Case| check_cross(c, &matrix3));
     report_matrix(r, "crosslang", &matrix3);
 }
 
